@@ -177,7 +177,13 @@ impl<'a> DataParser<'a> {
             return;
         }
 
-        if self.current_element.len() > 0 {
+        // Outside of quotes, blanks around items are insignificant, so trailing
+        // blanks alone (e.g. `DATA "a" :` or `DATA 1, `) must not yield an extra item.
+        let has_pending_element = match self.state {
+            ParseState::Normal => !self.current_element.trim().is_empty(),
+            ParseState::InDoubleQuotedString => self.current_element.len() > 0,
+        };
+        if has_pending_element {
             self.push_current_element();
         } else if self.elements.len() == 0 {
             self.push_current_element();
